@@ -209,9 +209,12 @@ def explore_root(check, root, depth, deadline=None, confluence_every=0, max_fail
                                     "failures": [f.as_dict() for f in fails],
                                 }
                             )
-                        live = None
-                        continue
-                    res.traces += 1
+                        if not all(f.finding for f in fails):
+                            live = None
+                            continue
+                        # only footprints of recorded defects: keep exploring behind them
+                    else:
+                        res.traces += 1
                     if not res.samples or len(res.samples[-1]["history"]) <= len(hist):
                         # keep the first trace and the first trace of every greater length
                         res.samples.append({"root": _jsonable(root), "history": [_jsonable(o) for o in hist] + [_jsonable(op)]})
